@@ -126,6 +126,16 @@ func (c *rconn) build(r reply, req []byte, n int) []byte {
 		if ip, ok := sidIP[r.Sid]; ok {
 			p.UpdateOption(dhcpv4.OptServerIdentifier(ip))
 		}
+		if r.Sid == "AA" { // option 54 sent twice (instances concatenate): eight octets that begin with A's address
+			p.UpdateOption(dhcpv4.OptGeneric(dhcpv4.OptionServerIdentifier, append(append([]byte{}, sidIP["A"]...), sidIP["A"]...)))
+		}
+		if (n+r.A)%2 == 0 {
+			// what servers put into replies besides what the client asked for: the client identifier they key the binding by
+			// (RFC 6842), a message, vendor information - none of it is the client's business
+			p.UpdateOption(dhcpv4.OptClientIdentifier([]byte{1, 2, 0, 0, 0, 0, byte(n)}))
+			p.UpdateOption(dhcpv4.OptMessage("lease " + r.T))
+			p.UpdateOption(dhcpv4.OptGeneric(dhcpv4.OptionVendorSpecificInformation, []byte{1, 1, byte(n)}))
+		}
 		if !r.Ok {
 			switch n % 6 {
 			case 0:
@@ -373,7 +383,7 @@ func run4(c struct {
 	}
 	out["sentpkts"] = sentpkts
 	// renewal and release on top of an obtained lease (the script continues after the exchange)
-	if extra && lease != nil {
+	if n54 := len(lease54(lease)); extra && lease != nil && (n54 == 0 || n54 == 4) { // (a lease whose ACK names no readable server has nobody to be released to)
 		ntx := len(conn.txs)
 		conn.mu.Lock()
 		conn.script = append(conn.script[:ntx:ntx], []reply{{T: "nak", Sid: "B", Ok: true}, {T: "ack", Sid: lease0sid(lease), Ok: true, A: 4}})
@@ -413,6 +423,13 @@ func run4(c struct {
 	}
 	cl.Close()
 	return out
+}
+
+func lease54(l *nclient4.Lease) []byte {
+	if l == nil || l.ACK == nil {
+		return nil
+	}
+	return l.ACK.Options.Get(dhcpv4.OptionServerIdentifier)
 }
 
 func lease0sid(l *nclient4.Lease) string {
